@@ -8,6 +8,7 @@ import (
 	"github.com/mit-pdos/go-nfsd/fh"
 	"github.com/mit-pdos/go-nfsd/inode"
 	"github.com/mit-pdos/go-nfsd/nfstypes"
+	"github.com/mit-pdos/go-nfsd/util/verifhook"
 )
 
 //
@@ -28,6 +29,7 @@ func Begin(fsstate *FsState) *FsTxn {
 			fsstate.Ialloc),
 		inodes: make(map[common.Inum]*inode.Inode),
 	}
+	verifhook.Emit(verifhook.EvBegin, op, 0)
 	return op
 }
 
@@ -59,6 +61,7 @@ func (op *FsTxn) AllocInode(kind nfstypes.Ftype3) *inode.Inode {
 	var ip *inode.Inode
 	inum := op.Atxn.AllocINum()
 	if inum != common.NULLINUM {
+		verifhook.Emit(verifhook.EvFresh, op, inum)
 		ip = op.GetInodeLocked(inum)
 		if ip.Kind != inode.NF3FREE {
 			panic("AllocInode")
@@ -75,11 +78,14 @@ func (op *FsTxn) AllocInode(kind nfstypes.Ftype3) *inode.Inode {
 func (op *FsTxn) ReleaseInode(ip *inode.Inode) {
 	util.DPrintf(1, "ReleaseInode %v\n", ip)
 	op.doneInode(ip)
+	verifhook.Emit(verifhook.EvRelease, op, ip.Inum)
 	op.Fs.Lockmap.Release(ip.Inum)
 }
 
 func (op *FsTxn) LockInode(inum common.Inum) *cache.Cslot {
+	verifhook.Emit(verifhook.EvWant, op, inum)
 	op.Fs.Lockmap.Acquire(inum)
+	verifhook.Emit(verifhook.EvGot, op, inum)
 	cslot := op.Fs.Icache.LookupSlot(uint64(inum))
 	if cslot == nil {
 		panic("GetInodeLocked")
